@@ -67,8 +67,12 @@ func genC03(r *Rng) *C03Case {
 	cs := &C03Case{Cfg: genCfg(r, 0.1)}
 	cs.Cfg.apply() // Source() during generation must already use this case's delimiters
 	ne := r.Range(2, 5)
+	hi := 5
+	if r.Chance(0.15) {
+		hi = 22 // maps well beyond any small-size special case
+	}
 	for i := 0; i < ne; i++ {
-		cs.Envs = append(cs.Envs, GenEnv(r.Fork(uint64(100+i)), 0, 5))
+		cs.Envs = append(cs.Envs, GenEnv(r.Fork(uint64(100+i)), 0, hi))
 	}
 	for i := 1; i < ne; i++ {
 		if r.Chance(0.6) {
@@ -130,6 +134,11 @@ func genC03(r *Rng) *C03Case {
 		default: // a render during which the k-th harness callback (tag/block/filter) fails or panics
 			st.Kind, st.EP, st.K = "cbfault", r.Intn(NumEP), 1+r.Intn(6)
 		}
+		if r.Chance(0.08) {
+			// the CALLER changes a value inside one of its own maps (same object, same
+			// size) between two renders: later renders must see the new value
+			st = C03Step{Kind: "mutate", B: st.B, K: r.Intn(1000)}
+		}
 		cs.Steps = append(cs.Steps, st)
 	}
 	return cs
@@ -181,6 +190,8 @@ func c03Pin() {
 // expected computes render(t, b) in isolation.
 func c03Expected(cs *C03Case, t, b int, ep int) Res {
 	c03Pin()
+	noScribble = true // the reference keeps its parse buffer intact; the history reuses its buffers
+	defer func() { noScribble = false }()
 	e, r := c03Engine(cs)
 	if e == nil {
 		return r
@@ -215,10 +226,10 @@ func c03Exp() {
 	fmt.Print(c03Expected(&in.Case, in.T, in.B, in.EP).Key())
 }
 
-func c03Child(cs *C03Case, t, b, ep int) (string, bool) {
+func c03Child(csJSON []byte, t, b, ep int) (string, bool) {
 	cmd := exec.Command(os.Args[0], "c03exp", "-scratch", scratchRoot)
 	cmd.Env = append(os.Environ(), "TZ=UTC")
-	in, _ := json.Marshal(map[string]any{"Case": cs, "T": t, "B": b, "EP": ep})
+	in, _ := json.Marshal(map[string]any{"Case": json.RawMessage(csJSON), "T": t, "B": b, "EP": ep})
 	cmd.Stdin = bytes.NewReader(in)
 	var so bytes.Buffer
 	cmd.Stdout = &so
@@ -234,7 +245,40 @@ type c03Fail struct {
 	step                int
 }
 
-func c03Find(c *Ctx, cs *C03Case, out *CaseOut, wantSig string) []c03Fail {
+// c03Mutate applies step st to the logical environment and to the live Go value:
+// one value of a plain map[string]any binding is replaced (no key added or removed).
+func c03Mutate(cs *C03Case, envs []map[string]any, st C03Step, si int) bool {
+	for _, a := range cs.Aliases {
+		if a.Env == st.B || a.FromEnv == st.B {
+			return false // shared by reference with another environment: left alone
+		}
+	}
+	e := cs.Envs[st.B]
+	for _, name := range []string{"m", "m2"} {
+		v := e.get(name)
+		if v == nil || v.T != "map" || v.R != "" || len(v.A) == 0 {
+			continue
+		}
+		live, ok := envs[st.B][name].(map[string]any)
+		if !ok {
+			continue
+		}
+		i := st.K % len(v.A)
+		nv := fmt.Sprintf("mutated-by-caller-%d", si)
+		v.A[i] = &LV{T: "str", S: nv}
+		live[v.K[i]] = nv
+		return true
+	}
+	return false
+}
+
+func c03Find(c *Ctx, cs0 *C03Case, out *CaseOut, wantSig string) []c03Fail {
+	csCopy := *cs0
+	cs := &csCopy
+	cs.Envs = nil
+	for _, e := range cs0.Envs {
+		cs.Envs = append(cs.Envs, cloneEnv(e)) // "mutate" steps change the logical environments
+	}
 	c03Pin()
 	eng, r0 := c03Engine(cs)
 	if eng == nil {
@@ -290,12 +334,30 @@ func c03Find(c *Ctx, cs *C03Case, out *CaseOut, wantSig string) []c03Fail {
 	hist := ""
 	lastOK, lastEP := -1, 0
 	var lastRes Res
+	var lastCase []byte // the case (logical environments) as of step lastOK, when mutate steps follow it
 	type kept struct {
 		res  Res
 		step int
 	}
 	var retained []kept
 	for si, st := range cs.Steps {
+		if st.Kind == "mutate" {
+			if lastOK >= 0 && lastCase == nil {
+				lastCase, _ = json.Marshal(cs) // environments as the last judged step saw them
+			}
+			if c03Mutate(cs, envs, st, si) {
+				for k := range exp {
+					if k[1] == st.B {
+						delete(exp, k)
+					}
+				}
+				snaps[st.B] = Snapshot(envs[st.B])
+				if c != nil {
+					c.count("fault:caller_mutates_binding", 1)
+				}
+			}
+			continue
+		}
 		ep := st.EP
 		if ep < EPParseAndRender && tpls[st.T] == nil {
 			ep += 3
@@ -337,7 +399,7 @@ func c03Find(c *Ctx, cs *C03Case, out *CaseOut, wantSig string) []c03Fail {
 			res = Run(ep, eng, tpls[st.T], srcs[st.T], envs[st.B], nil)
 			res.Stage = ""
 			if res.Panic == "" {
-				lastOK, lastEP, lastRes = si, ep, res
+				lastOK, lastEP, lastRes, lastCase = si, ep, res, nil
 			}
 			if res.Key() != want.Key() {
 				if add("render-independent", fmt.Sprintf("step %d: %s of template %d %q with env %d after %d earlier step(s) gives %s; alone on a fresh engine with equal bindings it gives %s", si, epNames[ep], st.T, clip(srcs[st.T]), st.B, si, clip(res.Key()), clip(want.Key())), si) {
@@ -399,7 +461,10 @@ func c03Find(c *Ctx, cs *C03Case, out *CaseOut, wantSig string) []c03Fail {
 	// at package level by earlier renders would pollute both sides equally.)
 	if (c != nil || wantSig == "render-independent|process") && lastOK >= 0 {
 		st := cs.Steps[lastOK]
-		if key, ok := c03Child(cs, st.T, st.B, lastEP); ok {
+		if lastCase == nil {
+			lastCase, _ = json.Marshal(cs)
+		}
+		if key, ok := c03Child(lastCase, st.T, st.B, lastEP); ok {
 			out.Evals++
 			if c != nil {
 				c.count("fault:fresh-process-reference", 1)
